@@ -10,6 +10,7 @@
 (*   bool  [v]    err [v]   TRUE/FALSE, error literal                      *)
 (*   ref   [sheet, col, row, ac, ar]      sheet = "" when unqualified      *)
 (*   range [sheet, c1, r1, a1, b1, c2, r2, a2, b2]   (a,b = $ flags)       *)
+(*   rows  [sheet, r1, r2]  whole rows  1:1  2:5                           *)
 (*   name  [v]              defined name                                   *)
 (*   call  [f, at, args]    function call, at = leading @                  *)
 (*   bin   [op, l, r]   neg [x]   pct [x]   paren [x]                      *)
@@ -28,6 +29,7 @@ BoolLit(b)   == [k |-> "bool", v |-> b]
 ErrLit(c)    == [k |-> "err", v |-> c]
 Ref(sh, c, r, ac, ar) == [k |-> "ref", sheet |-> sh, col |-> c, row |-> r, ac |-> ac, ar |-> ar]
 RelRef(c, r) == Ref("", c, r, FALSE, FALSE)
+Rows(sh, r1, r2) == [k |-> "rows", sheet |-> sh, r1 |-> r1, r2 |-> r2]
 Rng(sh, c1, r1, c2, r2) == [k |-> "range", sheet |-> sh, c1 |-> c1, r1 |-> r1, a1 |-> FALSE, b1 |-> FALSE,
                             c2 |-> c2, r2 |-> r2, a2 |-> FALSE, b2 |-> FALSE]
 NameRef(n)   == [k |-> "name", v |-> n]
@@ -150,6 +152,7 @@ Render(a, st) ==
       [] a.k = "ref"  -> SheetCodes(a.sheet, FALSE) \o CellCodes(a.col, a.row, a.ac, a.ar)
       [] a.k = "range" -> SheetCodes(a.sheet, FALSE) \o CellCodes(a.c1, a.r1, a.a1, a.b1) \o <<COLON>>
                           \o CellCodes(a.c2, a.r2, a.a2, a.b2)
+      [] a.k = "rows" -> SheetCodes(a.sheet, FALSE) \o NatToCodes(a.r1) \o <<COLON>> \o NatToCodes(a.r2)
       [] a.k = "name" -> NameCodes(a.v)
       [] a.k = "call" -> (IF a.at THEN <<AT>> ELSE <<>>) \o NameCodes(a.f) \o <<LP>> \o st.po
                          \o RenderArgs(a.args, st) \o st.pc \o <<RP>>
@@ -165,7 +168,7 @@ Formula(a, st) == (IF st.eq THEN <<61>> ELSE <<>>) \o st.lead \o Render(a, st) \
 (* All binary operators associate to the left; unary minus and % bind      *)
 (* tighter than every binary operator (unary minus tightest).              *)
 (* ---------------------------------------------------------------------- *)
-IsAtom(a) == a.k \in {"num", "str", "bool", "err", "ref", "range", "name", "call", "paren"}
+IsAtom(a) == a.k \in {"num", "str", "bool", "err", "ref", "range", "rows", "name", "call", "paren"}
 
 \* must child c of a binary node with operator op on side sd ("l"/"r") be parenthesised?
 NeedsParen(c, op, sd) ==
